@@ -67,7 +67,7 @@ def ghost(case):
 #   A idx chan type bytestart byteend start stop line col endline endcol payload
 #   E kind byte char line col last | L byte char | LIT hex | OUT outcome | END configuration
 # "k7" = first letter of field 7 (payload kind); "n7" = field 7 if it is a numeric payload, else its kind;
-# "eof2" = whether field 2 is the EOF type.
+# "m7" = field 7 if it is a numeric payload, else "-"; "eof2" = whether field 2 is the EOF type.
 VIEWS = {
     "C01": {"OUT": [1], "END": None, "only_ok": False},
     "C02": {"T": [1, "eof2", 4], "R": [1, 4, 5], "A": [1, 4, 5, 6, 7]},
@@ -75,7 +75,7 @@ VIEWS = {
     "C04": {"L": None, "T": [1, 4, 5, 6], "R": [1, 4, 5, 6, 7, 8, 9], "A": [1, 6, 7, 8, 9, 10, 11], "E": [2, 3, 4, 5]},
     "C06": {"T": [1, 2, 3, 4, "k7"], "R": [1, 2, 3, 4, 5, "k10"], "A": [1, 2, 3, 4, 5, "k12"]},
     "C07": {"T": [1, 2, 4, 7], "LIT": None, "R": [1, 3, 10], "A": [1, 3, 12]},
-    "C08": {"T": [1, 2, 4, 7], "R": [1, 3, 10], "A": [1, 3, 12]},
+    "C08": {"T": [1, 2, 4, "m7"], "R": [1, 3, "m10"], "A": [1, 3, "m12"]},
     "C09": {"E": None, "T": [1, 2, 4]},
     "C10": {"T": [1, 2, 3]},
     "C12": {"E": None, "END": None, "OUT": [1], "only_ok": False},
@@ -102,6 +102,10 @@ def project(lines, view, eof):
             elif f.startswith("k"):
                 j = int(f[1:])
                 q.append(p[j][:1] if j < len(p) else "")
+            elif f.startswith("m"):
+                j = int(f[1:])
+                v = p[j] if j < len(p) else ""
+                q.append(v if v[:1] in ("I", "F") else "-")
             elif f.startswith("n"):
                 j = int(f[1:])
                 v = p[j] if j < len(p) else ""
